@@ -2,7 +2,7 @@
    Only ExtrOcamlBasic's directives are used (bool, option, list, prod, unit, sumbool);
    N, positive, nat stay the extracted inductives. *)
 From Coq Require Import Extraction ExtrOcamlBasic.
-From CL Require Import Base SeqModel Spec Wrapper.
+From CL Require Import Base SeqModel Spec Wrapper AsyncCall.
 Extraction Blacklist List String.
 
 Extraction "../build/extract/model.ml"
@@ -10,4 +10,4 @@ Extraction "../build/extract/model.ml"
   c01_step c04_step c05_step c06_step c07_step c08_step c13_step c15_step
   ghost_step check_trace first_fail removed entry_eqb
   call enc dec world_call invalidate_by invalidate_cache invalidate_with invalidate_all_with
-  stats_get stats_reset clear_registered cond_registered.
+  stats_get stats_reset clear_registered cond_registered world_lookup world_finish.
